@@ -5,7 +5,7 @@ use hickory_proto::rr::rdata::{ANAME, CNAME, HTTPS, MX, NAPTR, NS, PTR, SOA, SRV
 use hickory_proto::rr::{RData, Record};
 use hickory_proto::serialize::txt::Parser;
 use serde_json::json;
-use vcore::{catch, fnv64, Ctx};
+use vcore::{catch, fnv64, Ctx, Local};
 use vref::masterfile::{print_file, Field, Labels, Rec, D_OWNER, D_RDNAMES, NDIMS};
 
 use crate::alphabet::{hname, labels, Entry};
@@ -177,4 +177,225 @@ pub fn name_limits(ctx: &Ctx) -> u64 {
         }
     });
     n
+}
+
+// ------------------------------------------------------------------------------------------
+// token-splitting dimension: a trailing hex / base64 blob written as several tokens
+
+const SEPS: [(&str, &str); 4] = [("space", " "), ("tab", "\t"), ("newline", "\n"), ("comment+newline", " ; c ( \"\n\t")];
+
+fn split_text(prefix: &str, blob: &str, cuts: &[usize], seps: &[usize]) -> String {
+    let multiline = seps.iter().any(|s| *s >= 2);
+    let mut t = String::with_capacity(prefix.len() + blob.len() + 16);
+    t.push_str(prefix);
+    if multiline {
+        t.push_str("( ");
+    }
+    let mut start = 0;
+    for (i, c) in cuts.iter().enumerate() {
+        t.push_str(&blob[start..*c]);
+        t.push_str(SEPS[seps[i]].1);
+        start = *c;
+    }
+    t.push_str(&blob[start..]);
+    if multiline {
+        t.push_str(" )");
+    }
+    t.push('\n');
+    t
+}
+
+fn chunk_classes(enc: &str, blob_len: usize, cuts: &[usize]) -> String {
+    let mut lens = vec![];
+    let mut start = 0;
+    for c in cuts {
+        lens.push(c - start);
+        start = *c;
+    }
+    lens.push(blob_len - start);
+    if enc == "hex" {
+        lens.iter().map(|l| if l % 2 == 0 { "even" } else { "odd" }).collect::<Vec<_>>().join("+")
+    } else {
+        lens.iter().map(|l| (l % 4).to_string()).collect::<Vec<_>>().join("+")
+    }
+}
+
+struct BlobCase<'a> {
+    e: &'a Entry,
+    enc: &'static str,
+    judged: bool,
+    prefix: String,
+    blob: String,
+}
+
+fn blob_case<'a>(w: &World, e: &'a Entry) -> BlobCase<'a> {
+    let (enc, judged) = match crate::alphabet::SPLITTABLE.iter().find(|(t, _)| *t == e.rec.rtype) {
+        Some((_, enc)) => (*enc, true),
+        None => (crate::alphabet::SPLIT_OBSERVED.iter().find(|(t, _)| *t == e.rec.rtype).expect("blob type").1, false),
+    };
+    let blob = match e.rec.rdata.last() {
+        Some(Field::Lit(s)) => s.clone(),
+        _ => unreachable!("blob entries end in a literal"),
+    };
+    let p = print_file(&w.origin, &w.alts, &[&e.rec], &[0, 0, 0], &[[0; NDIMS]]).expect("plain layout");
+    let prefix = p.text[..p.text.len() - 1 - blob.len()].to_string();
+    BlobCase { e, enc, judged, prefix, blob }
+}
+
+/// Judge one split; Some((clause, what)) on a violation of a judged type.
+fn run_split(w: &World, c: &BlobCase<'_>, cuts: &[usize], seps: &[usize], l: &mut Local) -> Option<(String, String)> {
+    let text = split_text(&c.prefix, &c.blob, cuts, seps);
+    match judge_text(w, &[c.e], &text, false, &w.origin, true, l) {
+        Verdict::Ok => None,
+        Verdict::Viol { clause, what } => Some((clause, what)),
+        _ => None,
+    }
+}
+
+/// Every way to write the trailing blob as 2 (and 3) tokens: a cut at EVERY character position
+/// (pair of positions) x every separator {space, tab, newline inside parentheses, comment +
+/// newline inside parentheses}. Oracle: the split file loads to the same record as the un-split
+/// one (= the reference record). Judged for the types whose RFC allows white space in the field
+/// (`SPLITTABLE`); for SSHFP and OPENPGPKEY the outcome is only counted.
+pub fn blob_splits(ctx: &Ctx, w: &World, thorough: bool) -> u64 {
+    let (entries, regular) = crate::alphabet::blob_entries();
+    let used = if thorough { entries.len() } else { regular };
+    let cases: Vec<BlobCase<'_>> = entries[..used].iter().map(|e| blob_case(w, e)).collect();
+    // work items: (case, tokens, first cut)
+    let mut items: Vec<(usize, usize, usize)> = vec![];
+    for (ci, c) in cases.iter().enumerate() {
+        let len = c.blob.len();
+        for p1 in 1..len {
+            items.push((ci, 2, p1));
+            let three = c.judged && (thorough || (matches!(c.e.rec.rtype, "TLSA" | "DS") && len <= 128));
+            if three && p1 + 1 < len {
+                items.push((ci, 3, p1));
+            }
+        }
+    }
+    let total = std::sync::atomic::AtomicU64::new(0);
+    ctx.par_run(items.len() as u64, 8, |i, l| {
+        let (ci, k, p1) = items[i as usize];
+        let c = &cases[ci];
+        let len = c.blob.len();
+        let ty = c.e.rec.rtype;
+        let mut n = 0u64;
+        let mut one = |cuts: &[usize], seps: &[usize], l: &mut Local| {
+            n += 1;
+            l.eval();
+            if !c.judged {
+                let text = split_text(&c.prefix, &c.blob, cuts, seps);
+                let v = judge_text(w, &[c.e], &text, false, &w.origin, true, l);
+                let cls = match v {
+                    Verdict::Ok => "accepted-equal".to_string(),
+                    Verdict::Viol { clause, .. } if clause.starts_with("panic:") => {
+                        l.violation(&clause, "panic on a split blob", || json!({"kind": "text", "family": "blob-split", "text": text, "with_origin": true}));
+                        return;
+                    }
+                    Verdict::Viol { clause, .. } => clause.trim_start_matches("valid:").to_string(),
+                    _ => "other".to_string(),
+                };
+                l.outcome(&format!("obs:blob-split:{ty}:{cls}"));
+                return;
+            }
+            match run_split(w, c, cuts, seps, l) {
+                None => {
+                    l.outcome("blob-split:ok");
+                    l.nontrivial(vcore::fnv64(format!("{ty}{len}{cuts:?}{seps:?}").as_bytes()));
+                }
+                Some((clause, what)) => {
+                    let case = |cuts: &[usize], seps: &[usize]| {
+                        json!({"kind": "blob-split", "entry": ci, "tag": c.e.tag, "cuts": cuts, "separators": seps.iter().map(|s| SEPS[*s].0).collect::<Vec<_>>(), "seps": seps,
+                               "text": split_text(&c.prefix, &c.blob, cuts, seps)})
+                    };
+                    if clause.starts_with("panic:") {
+                        l.violation(&clause, &what, || case(cuts, seps));
+                        return;
+                    }
+                    // reduce: fewer tokens, plain separators (same clause family)
+                    let fam = clause.split('.').next().unwrap().to_string();
+                    let mut scratch = Local::default();
+                    let mut still = |cu: &[usize], se: &[usize]| matches!(run_split(w, c, cu, se, &mut scratch), Some((cl, _)) if cl.split('.').next().unwrap() == fam);
+                    let (mut cu, mut se) = (cuts.to_vec(), seps.to_vec());
+                    if cu.len() == 2 {
+                        for drop in 0..2 {
+                            let (mut c2, mut s2) = (cu.clone(), se.clone());
+                            c2.remove(drop);
+                            s2.remove(drop);
+                            if still(&c2, &s2) {
+                                cu = c2;
+                                se = s2;
+                                break;
+                            }
+                        }
+                    }
+                    for j in 0..se.len() {
+                        for v in 0..se[j] {
+                            let mut s2 = se.clone();
+                            s2[j] = v;
+                            if still(&cu, &s2) {
+                                se = s2;
+                                break;
+                            }
+                        }
+                    }
+                    let sepnote: Vec<&str> = se.iter().filter(|s| **s != 0).map(|s| SEPS[*s].0).collect();
+                    let key = format!(
+                        "valid:blob-split:{}:{ty}:{}-chunks={}{}",
+                        fam.trim_start_matches("valid:"),
+                        c.enc,
+                        chunk_classes(c.enc, len, &cu),
+                        if sepnote.is_empty() { String::new() } else { format!(",sep={}", sepnote.join("+")) }
+                    );
+                    l.violation(&key, &format!("trailing {} field written as {} tokens: {what}", c.enc, cu.len() + 1), || case(&cu, &se));
+                }
+            }
+        };
+        if i % 8 == 0 {
+            ctx.watch(l.worker, || json!({"kind": "blob-split", "entry": ci, "cuts": [p1], "seps": [0]}).to_string());
+        }
+        if k == 2 {
+            for s in 0..SEPS.len() {
+                one(&[p1], &[s], l);
+            }
+        } else {
+            for p2 in p1 + 1..len {
+                for s1 in 0..SEPS.len() {
+                    for s2 in 0..SEPS.len() {
+                        one(&[p1, p2], &[s1, s2], l);
+                    }
+                }
+            }
+        }
+        total.fetch_add(n, std::sync::atomic::Ordering::Relaxed);
+    });
+    total.into_inner()
+}
+
+pub fn replay_blob_split(w: &World, case: &serde_json::Value, l: &mut Local) {
+    let (entries, _) = crate::alphabet::blob_entries();
+    let Some(e) = entries.get(case["entry"].as_u64().unwrap_or(0) as usize) else { return };
+    let c = blob_case(w, e);
+    let cuts: Vec<usize> = case["cuts"].as_array().map(|a| a.iter().map(|x| x.as_u64().unwrap() as usize).collect()).unwrap_or_default();
+    let seps: Vec<usize> = case["seps"].as_array().map(|a| a.iter().map(|x| x.as_u64().unwrap() as usize).collect()).unwrap_or_default();
+    l.eval();
+    eprintln!("replay text:\n{}", split_text(&c.prefix, &c.blob, &cuts, &seps));
+    if let Some((clause, what)) = run_split(w, &c, &cuts, &seps, l) {
+        let key = if clause.starts_with("panic:") {
+            clause
+        } else {
+            format!(
+                "valid:blob-split:{}:{}:{}-chunks={}{}",
+                clause.split('.').next().unwrap().trim_start_matches("valid:"),
+                e.rec.rtype,
+                c.enc,
+                chunk_classes(c.enc, c.blob.len(), &cuts),
+                {
+                    let n: Vec<&str> = seps.iter().filter(|s| **s != 0).map(|s| SEPS[*s].0).collect();
+                    if n.is_empty() { String::new() } else { format!(",sep={}", n.join("+")) }
+                }
+            )
+        };
+        l.violation(&key, &what, || case.clone());
+    }
 }
